@@ -4,6 +4,7 @@ import Pcore.Generated.SliceIdioms
 import Pcore.Model.Caches
 import Pcore.Generated.CacheFacts
 import Driver.ImmutRes
+import Driver.ImmutMut
 /-!
 Driver op for C08:  `hist <step>*` (syntax in harness/c08/c08.go).  The history is run on the IMPLEMENTATION-LAYER
 model (`runHeap`) with the idiom table regenerated from the Go source and Go 1.23's growth policy; the line printed
@@ -205,6 +206,7 @@ def exec : List Sexp → String
       showState st ++ " | shape " ++ (if ops.any usesAt then "n/a" else showShape st) ++
         " | caches " ++ (if cachesOK cst then "ok" else "stale")
     | none => "bad-op"
+  | .atom "mut" :: steps => C08Mut.exec steps        -- a MutableHashValue as an object (Driver/ImmutMut.lean)
   | .atom "res" :: args => C08Res.exec args          -- the resolving operations (Driver/ImmutRes.lean)
   | _ => "bad-op"
 
